@@ -12,6 +12,7 @@
 #include <stddef.h>
 #include <string.h>
 #include <limits.h>
+#include <float.h>
 
 #ifdef VERIF_CBMC
 #define NONDET(T, name) T name
